@@ -26,12 +26,13 @@
 # policies, either expressed or implied, of Matt Chaput.
 
 import copy
+import sys
 
 from whoosh import query
 from whoosh.compat import u
 from whoosh.compat import iteritems, xrange
 from whoosh.qparser import syntax
-from whoosh.qparser.common import attach
+from whoosh.qparser.common import attach, QueryParserError
 from whoosh.qparser.taggers import RegexTagger, FnTagger
 from whoosh.util.text import rcompile
 
@@ -714,12 +715,22 @@ class PhrasePlugin(Plugin):
                     # An unindexed (e.g. STORED) field: nothing to search
                     return attach(query.error_query("Field %r is not indexed"
                                                     % fieldname), self)
+                elif field.self_parsing():
+                    # A field without an analyzer that knows how to turn text
+                    # into a query itself (e.g. BOOLEAN): the quoted text is
+                    # its value
+                    try:
+                        q = field.parse_query(fieldname, text,
+                                              boost=self.boost)
+                    except QueryParserError:
+                        q = query.error_query(sys.exc_info()[1])
+                    return attach(q, self)
                 else:
-                    # We have a field but it doesn't have an analyzer, for
-                    # some reason (it's self-parsing?), so use process_text
-                    # to get the texts (we won't know the start/end chars)
-                    words = list(field.process_text(text, mode="query"))
-                    char_ranges = [(None, None)] * len(words)
+                    # We have a field but it doesn't have an analyzer, so
+                    # the quoted text is a single "word" (we won't know the
+                    # start/end chars)
+                    words = [text]
+                    char_ranges = [(None, None)]
             else:
                 # We're parsing without a schema, so just use the default
                 # regular expression to break the text into words
